@@ -116,6 +116,8 @@ type Unit struct {
 	inlining map[*types.Func]bool // helpers being executed in place (recursion guard)
 	renameBack     map[string]string // current name of a renamed variable -> the name the contracts use
 	renameBackDone bool
+	shareLoops     bool // the next inlined body continues the current frame's loop numbering
+	inlineSites    []inlineSite // calls being executed in place, outermost first
 	eng   *Engine
 	u     *Universe
 	pkg   *packages.Package
